@@ -62,6 +62,10 @@ def build(rng, case):
     else:
         sg = [1 if x else -1 for x in case["tilt_signs"]]
         cell = np.array([[a, 0, 0], [sg[0] * rng.uniform(0.05, 0.45) * a, b, 0], [sg[1] * rng.uniform(0.05, 0.45) * a, sg[2] * rng.uniform(0.05, 0.45) * b, c]])
+        if rng.integers(6) == 0:
+            # tilts just above the printed precision: still a tilted cell, the file must say so
+            tiny = float(rng.choice([3e-6, 5e-5, 4e-4]))
+            cell[1, 0], cell[2, 0], cell[2, 1] = sg[0] * tiny, sg[1] * tiny * float(rng.integers(0, 2)), sg[2] * tiny * float(rng.integers(0, 2))
         zero = int(rng.integers(0, 8))          # every tilt pattern incl. exactly one or two tilt factors equal to zero
         if zero in (1, 2, 3):
             cell[[1, 2, 2][zero - 1], [0, 0, 1][zero - 1]] = 0.0
@@ -306,6 +310,9 @@ def run_case(case, ctx):
     st.seen("style", style)
     st.seen("cell", case["cell"] + ("" if case["cell"] == "ortho" else str(case["tilt_signs"])))
     st.seen("via", case["via"])
+    tl = float(np.abs([a.cell[1, 0], a.cell[2, 0], a.cell[2, 1]]).max())
+    if 0 < tl < 1e-3:
+        st.count("cells_with_tilts_near_the_printed_precision")
     st.seen("tilt_zero_pattern", "%d%d%d" % (a.cell[1, 0] != 0, a.cell[2, 0] != 0, a.cell[2, 1] != 0))
     if case.get("many_types"):
         st.count("files_with_two_digit_type_ids")
@@ -337,6 +344,8 @@ def requirements(stats, tier):
         need.append("too few files observed")
     if stats.nseen("cell") < 9:
         need.append("not all tilt-sign combinations observed (%d of 9 cell classes)" % stats.nseen("cell"))
+    if stats.get("cells_with_tilts_near_the_printed_precision") < 3:
+        need.append("cells with tilt factors near the printed precision: %d" % stats.get("cells_with_tilts_near_the_printed_precision"))
     if stats.nseen("two_digit_table") < 5:
         need.append("coefficient tables with >= 10 entries observed for only %d of 5 sections" % stats.nseen("two_digit_table"))
     if stats.nseen("style") < 2 or stats.nseen("tables") < 5:
